@@ -860,6 +860,113 @@ func main() {
 		}
 	})
 
+	// concave pieces and concave holes: the piece that owns a hole is not convex (a notch reaches into it), and the
+	// hole wraps around the tip of the notch - the centre of the hole's bounding box, its centroid and the mean of
+	// its vertices may all lie outside the piece, only its own points are inside
+	r.Explore("concave-pieces", "box [0,10]^2; an outer ring cut into a notched main piece and a lobe (4 rotations, mirrored or not) x every non-empty subset of 4 holes (chevron and C around the notch tip, L in one arm, a square) x hole start vertex x both orientations, through Polygon / MultiPolygon / Geometry: two result polygons, region on a half-unit lattice, every hole attached to the main piece", mc.Opts{MaxDev: -1, Split: 2}, func(c *mc.Ctx) {
+		rot := c.Choose(4)
+		mirror := c.Bool()
+		o := orb.CCW
+		if c.Bool() {
+			o = orb.CW
+		}
+		mask := 1 + c.Choose(15)
+		shift := c.Choose(4)
+		outer := []orb.Point{{-2, 1}, {9, 1}, {9, 4}, {3.5, 5}, {9, 6}, {9, 9}, {-1, 9}, {-1, 10.5}, {9.5, 10.5}, {9.5, 2}, {12, 2}, {12, 12}, {-2, 12}}
+		menu := [][]orb.Point{
+			{{2, 5}, {6, 2.5}, {6, 3}, {3, 5}, {6, 7}, {6, 7.5}},                         // chevron "<" around the notch tip
+			{{1, 1.5}, {8, 1.5}, {8, 2}, {1.5, 2}, {1.5, 8}, {8, 8}, {8, 8.5}, {1, 8.5}}, // C open to the right, around the whole notch
+			{{0.25, 6}, {0.75, 6}, {0.75, 8.6}, {8.5, 8.6}, {8.5, 8.9}, {0.25, 8.9}},     // L along the left and the top side
+			{{0.25, 2}, {0.75, 2}, {0.75, 3}, {0.25, 3}},                                 // a square
+		}
+		turn := func(ps []orb.Point, st int) orb.Ring {
+			out := make(orb.Ring, 0, len(ps)+1)
+			for i := range ps {
+				p := ps[(i+st)%len(ps)]
+				if mirror {
+					p = orb.Point{p[0], 10 - p[1]}
+				}
+				for k := 0; k < rot; k++ {
+					p = orb.Point{10 - p[1], p[0]}
+				}
+				out = append(out, p)
+			}
+			out = append(out, out[0])
+			if (shoelace(out) > 0) != (o == orb.CCW) {
+				out.Reverse()
+			}
+			return out
+		}
+		or := turn(outer, 0)
+		poly := orb.Polygon{or}
+		var holes []orb.Ring
+		for i, h := range menu {
+			if mask&(1<<i) != 0 {
+				hr := turn(h, shift)
+				hr.Reverse() // holes wind against the outer ring
+				holes = append(holes, hr)
+				poly = append(poly, hr)
+			}
+		}
+		box := orb.Bound{Min: orb.Point{0, 0}, Max: orb.Point{10, 10}}
+		probe := turn([]orb.Point{{0.1, 1.2}}, 0)[0] // a point of the main piece that no hole covers
+		c.NonTrivial()
+		for variant := 0; variant < 3; variant++ {
+			var got orb.MultiPolygon
+			switch variant {
+			case 0:
+				got = smartclip.Polygon(box, poly.Clone(), o)
+			case 1:
+				got = smartclip.MultiPolygon(box, orb.MultiPolygon{poly.Clone()}, o)
+			default:
+				g := smartclip.Geometry(box, poly.Clone(), o)
+				mp, ok := g.(orb.MultiPolygon)
+				if !ok {
+					c.Failf("concave:generic", "smartclip.Geometry returns %T %v for a polygon cut into two pieces", g, g)
+					return
+				}
+				got = mp
+			}
+			desc := fmt.Sprintf("via=%s box=%v orientation=%d polygon=%v result=%v", []string{"Polygon", "MultiPolygon", "Geometry"}[variant], box, o, poly, got)
+			if len(got) != 2 {
+				c.Failf("concave:polygons", "the box cuts the outer ring into two pieces, the result has %d polygons | %s", len(got), desc)
+				return
+			}
+			for _, gp := range got {
+				for _, gr := range gp {
+					if len(gr) < 4 || gr[0] != gr[len(gr)-1] {
+						c.Failf("concave:ring-shape", "result ring %v is not closed | %s", gr, desc)
+						return
+					}
+				}
+				if sh := shoelace(gp[0]); (sh > 0) != (o == orb.CCW) {
+					c.Failf("concave:winding", "outer ring %v winds against the requested orientation | %s", gp[0], desc)
+					return
+				}
+			}
+			for i := 0; i < 20; i++ {
+				for j := 0; j < 20; j++ {
+					q := orb.Point{float64(i)/2 + 1.0/7, float64(j)/2 + 1.0/11}
+					want := inFloat(or, q)
+					for _, h := range holes {
+						want = want && !inFloat(h, q)
+					}
+					if have := inMulti(got, q); have != want {
+						c.Failf("concave:region", "point %v: in the smart-clipped result = %v, in the original region = %v | %s", q, have, want, desc)
+						return
+					}
+				}
+			}
+			for _, gp := range got {
+				main := inFloat(gp[0], probe)
+				if main && len(gp)-1 != len(holes) || !main && len(gp) != 1 {
+					c.Failf("concave:attachment", "the piece %v (main piece: %v) carries %d inner rings, the polygon has %d holes, all inside the main piece | %s", gp[0], main, len(gp)-1, len(holes), desc)
+					return
+				}
+			}
+		}
+	})
+
 	// open input: contiguous sub-paths cut at the box
 	r.Explore("open-subpaths", "every simple ring of 3..4 grid vertices x every contiguous sub-path that starts and ends outside the closed general-position box and contains all of the ring's contact with it, fed as an open ring with its winding: the result encloses region x box", mc.Opts{MaxDev: -1, Split: 2}, func(c *mc.Ctx) {
 		n := 3 + c.Choose(2)
